@@ -311,9 +311,14 @@ def _run_unit(out, prop, unit, slot, lock):
         with lock:
             out.inconclusive.append("%s: reachability covers not all satisfied: %s" % (
                 unit.name, [c["desc"] + "=" + c["status"] for c in bad_covers] or "no covers found"))
-    if undetermined and not real_fail:
+    und_lab = [c for c in undetermined if is_label(c, unit.name)]
+    if und_lab and not real_fail:
+        with lock:
+            out.inconclusive.append("%s: labelled obligations undetermined: %s" % (unit.name, [c["desc"] for c in und_lab]))
+    elif undetermined and not real_fail and not r["successful"]:
         with lock:
             out.inconclusive.append("%s: %d checks undetermined" % (unit.name, len(undetermined)))
+    ev["undetermined_dependency_checks"] = [c["desc"] + " @ " + c["loc"][-80:] for c in undetermined if c not in und_lab][:5]
     ev["verdict"] = "holds" if not (failing or must_bad) else "failing-obligations"
     if must_bad and not unwind_fail:
         confirm_must(out, prop, unit, [c["desc"] for c in must_bad])
